@@ -153,8 +153,24 @@ CONFIGS = [
 ]
 
 
+# Namespaces scanned WITHOUT explicit symbol prefixes (family C): the default symbol prefix is the
+# documented underscore form of the identifier prefix (utils.to_underscores docstring: a leading
+# capital followed by another capital is a word of its own - GUdev -> g_udev, as libgudev's
+# g_udev_* API).  A small API (type, struct, method, function, get-type, constructor, constants)
+# is spelled with that prefix.
+DEFAULT_PREFIX_NAMES = [('Foo', 'foo'), ('Gio', 'gio'), ('GtkSource', 'gtk_source'), ('GUdev', 'g_udev'),
+                        ('GData', 'g_data'), ('ABCFoo', 'a_bc_foo')]
+DEFAULT_PREFIX_MENU = ['TD_Text', 'ST_Text', 'text_get_type', 'text_new', 'text_frob', 'init', 'K_MAX', 'K_KEY_a']
+DEFAULT_PREFIX_CONFIGS = [
+    {'id': 'default-' + n, 'ns': n, 'ident': [n], 'sym': None, 'unprefixed': False, 'includes': [],
+     'I': n, 's': sp, 'extra': [], 'only': DEFAULT_PREFIX_MENU}
+    for n, sp in DEFAULT_PREFIX_NAMES]
+
+
 def config_menu(cfg):
     """Items enumerated under cfg (core + the configuration's extra families)."""
+    if cfg.get('only'):
+        return [it for it in menu(cfg['I'], cfg['s']) if it['id'] in cfg['only']]
     allowed = set(x for fam in cfg['extra'] for x in EXTRA[fam])
     return [it for it in menu(cfg['I'], cfg['s']) if it['id'] not in ALL_EXTRA or it['id'] in allowed]
 
@@ -254,6 +270,16 @@ def camel_to_uscore(name):
     return ''.join(out).lower()
 
 
+def default_symbol_prefix(ident_prefix):
+    """Documented default of --symbol-prefix: the underscore form of the identifier prefix, where
+    additionally a leading capital that is followed by another capital is a word of its own
+    (GUdev -> g_udev, GData -> g_data, GObject -> g_object; Gtk -> gtk, GtkSource -> gtk_source)."""
+    u = camel_to_uscore(ident_prefix)
+    if len(ident_prefix) >= 2 and ident_prefix[0].isupper() and ident_prefix[1].isupper() and u[1:2] != '_':
+        u = u[0] + '_' + u[1:]
+    return u
+
+
 def base_ctype(spec):
     """'const FooText *' -> ('FooText', pointer depth)"""
     depth = spec.count('*')
@@ -269,7 +295,7 @@ class Model(object):
         self.items = items
         self.dump = dump                      # 'none' | 'class' (TextBuffer derives from Text) | 'classflat' | 'boxed'
         self.ident = list(cfg['ident'])
-        self.sym = list(cfg['sym']) if cfg['sym'] is not None else [camel_to_uscore(p) for p in self.ident]
+        self.sym = list(cfg['sym']) if cfg['sym'] is not None else [default_symbol_prefix(p) for p in self.ident]
         self.includes = []
         specs = list(cfg['includes'])
         if dump in ('class', 'classflat'):
@@ -682,6 +708,13 @@ def compare(model, obs):
     """-> list of (what, subject C name, observed detail, message) disagreements between the
     reference model and the GIR."""
     bad = []
+    if obs.symbol_prefixes != model.sym:
+        bad.append(('ns-symbol-prefixes', '-', ','.join(obs.symbol_prefixes),
+                    'namespace says c:symbol-prefixes=%r, expected %r' % (','.join(obs.symbol_prefixes), ','.join(model.sym))))
+    if obs.identifier_prefixes != model.ident:
+        bad.append(('ns-identifier-prefixes', '-', ','.join(obs.identifier_prefixes),
+                    'namespace says c:identifier-prefixes=%r, expected %r' % (
+                        ','.join(obs.identifier_prefixes), ','.join(model.ident))))
 
     def pl(d):
         return '%s/%s/%s' % (d['tag'], d['owner'] or '-', d['name'])
